@@ -330,3 +330,14 @@ def _r5(ctx: Context, tree: str, N: Names) -> None:
         ok = any("BaseException" in ctx.escape.handler_types(it.module, h) and any(
             isinstance(x, ast.Call) and norm(x.func) in ("self.aclose", "self.close") for x in ast.walk(h)) and any(isinstance(x, ast.Raise) for x in h.body) for h in hs)
         rep.ob("C05.R5", fkey(tree, it, "iter-closes-on-failure"), ok, where(it), "a failed or cancelled body read closes the response (BaseException handler -> aclose -> re-raise)")
+
+_core_run = run
+
+
+def run(ctx: Context) -> None:  # noqa: F811
+    _core_run(ctx)
+    from . import backend
+
+    ctx.rep.rule('C05.R7', 'the cancellation shield enters and leaves a CancelScope(shield=True) of the running backend')
+    backend.shield(ctx, 'C05.R7')
+    ctx.rep.explanation = (ctx.rep.explanation or '') + ' R7: the shield class really is a CancelScope(shield=True), entered and exited unconditionally.'
